@@ -66,11 +66,14 @@ def model_cfg(c):
             cfg = line[4:].strip()
         if line.startswith("decide="):
             decide = line[7:].strip()
+        if line.startswith("reason="):
+            model_cfg.reason = line[7:].strip()
     model_cfg.decide = decide
     return cfg
 
 
 model_cfg.decide = "fixed"
+model_cfg.reason = "safe"
 
 
 def run(c):
@@ -86,7 +89,7 @@ def run(c):
         "process in starlark.ExecFile's freeze)",
     ]
     c.coverage["rule"] = (
-        "generated dawn projects: each of 32 unit kinds alone (recursion, mutual recursion, closures, defaults, nested defs / "
+        "generated dawn projects: each of 33 unit kinds alone (recursion, mutual recursion, closures, defaults, nested defs / "
         "lambdas / comprehensions, containers of 0..3000 elements, shared / cyclic / 1500-deep data, a recursive function in front "
         "of shared lists / dicts / sets / functions, sets and dicts of 12..40-byte strings and bytes as globals / defaults / free "
         "variables, every predeclared kind, "
@@ -109,7 +112,8 @@ def run(c):
     c.coverage["model_cfg"] = cfg
     scratch = vcheck.scratch("env")
     try:
-        args = [exe, "-seed", str(c.seed), "-tier", c.tier, "-cfg", cfg, "-decide", model_cfg.decide, "-scratch", scratch,
+        args = [exe, "-seed", str(c.seed), "-tier", c.tier, "-cfg", cfg, "-decide", model_cfg.decide, "-reasonrule", model_cfg.reason,
+                "-scratch", scratch,
                 "-corpus", os.path.join(vcheck.VERIF, "corpus", "C08")]
         if os.environ.get("VERIF_ENV_BUDGET"):
             args += ["-budget", os.environ["VERIF_ENV_BUDGET"]]
@@ -151,6 +155,13 @@ def replay(c, case):
         return 2
     cfg = model_cfg(c) or "101111"
     scratch = vcheck.scratch("env-replay")
+    if case.get("input", {}).get("stream") == "env.reasontext":
+        p = subprocess.run([exe, "-reasonrule", model_cfg.reason, "-reasonkeys", json.dumps(case["input"]["keys"])], stdout=subprocess.PIPE)
+        _, viols, _ = parse(p.stdout.decode("utf-8", "replace"))
+        for v in viols:
+            print("%s: %s" % (v["kind"], v["detail"]))
+        print("VIOLATION property=C08 replay=(given)" if viols else "no violation on replay")
+        return 1 if viols else 0
     try:
         p = subprocess.run([exe, "-cfg", cfg, "-decide", model_cfg.decide, "-scratch", scratch, "-replay", json.dumps(case["input"])],
                            stdout=subprocess.PIPE)
